@@ -45,7 +45,7 @@ From ASModel Require Import ProtDefs Prot1 Prot11 Prot16 Prot Typed LinDefs Lin2
 From ASModel Require Import Stale StaleInv.
 From ASModel Require Import Stale2 Stale2Inv.
 From ASModel Require Import StaleC StaleCInv.
-From ASModel Require Import Stale2S.
+From ASModel Require Import Stale2S Stale2SEx.
 
 Theorem C01_dec : forall s a,
   match heap s a with
@@ -251,5 +251,10 @@ Theorem C01_static_scope_generalises cf inits progs sched :
   fresh_sched sched -> RunStatic cf inits progs sched -> RunStaticS2 cf inits progs sched.
 Proof. exact (RunStatic_RunStaticS2 cf inits progs sched). Qed.
 
+(** Non-vacuity: the run [sx2] (stale `in_use` look, stale head read, stale slot scan) is inside. *)
+Theorem C01_stale2_static_scope_inhabited : RunStaticS2 sx2_cf sx2_inits sx2_progs sx2_sched.
+Proof. exact RunStaticS2_example. Qed.
+
 Print Assumptions C01_no_use_after_free_stale2_static.
+Print Assumptions C01_stale2_static_scope_inhabited.
 Print Assumptions C01_static_scope_generalises.
